@@ -227,7 +227,7 @@ def run(chk: core.Check):
     chk.assumptions += ["hash scores are small integers: float comparisons are exact"]
     skipf = lambda c, r: r["outcome"][5:] if r["outcome"].startswith("skip:") else None  # noqa: E731
     rng = core.rng_for(chk.seed, "C09/hash")
-    cases = [gen_hash(rng, nmax) for _ in range(N)]
+    cases = core.Gen(gen_hash, rng, nmax, N)
     res = chk.run_stream("cbs-hash", cases, impl_hash, oracle=oracle_cbs, site="CircularBinarySegmentation", skip=skipf,
                          nontrivial=lambda c, r: r.get("outcome") == "ok" and len(r["anoms"]) > 0)
     ok = [(c, r) for c, r in zip(cases, res) if r["outcome"] == "ok"]
@@ -245,11 +245,11 @@ def run(chk: core.Check):
     if ok:
         chk.samples.append({"stream": "cbs-hash/model", "line": hash_line(ok[0])[:200], "model": outs[0][:200]})
     rng = core.rng_for(chk.seed, "C09/pair")
-    chk.run_stream("pair", [gen_pair(rng, nmax) for _ in range(N // 4)], impl_pair, oracle=oracle_pair, skip=skipf,
+    chk.run_stream("pair", core.Gen(gen_pair, rng, nmax, N // 4), impl_pair, oracle=oracle_pair, skip=skipf,
                    site="CircularBinarySegmentation/monotone",
                    nontrivial=lambda c, r: r.get("outcome") == "ok" and len(r["lo"]) > len(r["hi"]))
     rng = core.rng_for(chk.seed, "C09/builtin")
-    chk.run_stream("builtin", [gen_builtin(rng, nmax + 5) for _ in range(N // 4)], impl_builtin, oracle=oracle_builtin,
+    chk.run_stream("builtin", core.Gen(gen_builtin, rng, nmax + 5, N // 4), impl_builtin, oracle=oracle_builtin,
                    site="CircularBinarySegmentation/builtin",
                    nontrivial=lambda c, r: r.get("outcome") == "ok" and len(r["anoms"]) > 0,
                    describe=lambda c: {k: v for k, v in c.items() if k != "X"} | {"X[:4]": c["X"][:4]})
